@@ -92,9 +92,7 @@ impl Network {
         if transaction
             .from
             .first()
-            .expect("from slip should exist")
-            .public_key
-            == public_key
+            .map_or(false, |slip| slip.public_key == public_key)
         {
             if let TransactionType::GoldenTicket = transaction.transaction_type {
             } else {
